@@ -14,6 +14,7 @@ import (
 
 const (
 	queueDirHashLength = 8
+	queueDirMaxNameLen = 200 // max length of the ID part in dir names, to stay below NAME_MAX with the hash appended
 	idFileName         = ".id"
 	xattrBufferID      = "user.hybridbufferID" // FIXME: deprecated, remove this
 )
@@ -25,7 +26,10 @@ func makeBufferQueueDir(parentLogger logger.Logger, rootPath string, bufferID st
 		if dirname != bufferID {
 			parentLogger.Infof("unclean buffer ID as dirname: '%s'", bufferID)
 		}
-		// if buffer ID is not the same after sanitization, it would still get unique dir due to hash
+		if len(dirname) > queueDirMaxNameLen {
+			dirname = dirname[:queueDirMaxNameLen]
+		}
+		// if buffer ID is not the same after sanitization or truncation, it would still get unique dir due to hash
 		hash := util.MD5ToHexdigest(bufferID)
 		path = filepath.Join(rootPath, dirname+"."+hash[len(hash)-queueDirHashLength:])
 	} else {
@@ -75,7 +79,7 @@ func listBufferQueueIDs(parentLogger logger.Logger, rootPath string, matchChunkI
 			parentLogger.Errorf("error stating entry path='%s': %s", path, serr.Error())
 			continue
 		}
-		if stat.Mode&unix.DT_DIR == 0 {
+		if stat.Mode&unix.S_IFMT != unix.S_IFDIR {
 			continue
 		}
 
